@@ -340,7 +340,7 @@ Section DDoc.
     { cbn [sitem_cj xh]. unfold pre_raw, suf_raw. cbn [decor_new d_prefix d_suffix].
       destruct (cj_trail w c Hw Hc) as (ct & Hct & Hqt). exists cp, ct. rewrite Elead, Etrail.
       split; [exact Hcp|]. split; [exact Hct|]. split; [exact Hqt|]. unfold txt. rewrite Elead, Etrail.
-      apply cjx_app_any; [exact Hcp|]. change ct with ([] ++ ct). Show.
+      apply cjx_app_any; [exact Hcp|]. change ct with ([] ++ ct).
       apply (cjx_app false qstop anyf); [apply (cj_qt CS), HqY|exact Hct|intros z _; apply Hqt]. }
     assert (Hcj' : Forall (sitem_cj s) (items ++ [(xh, txt)])) by (apply Forall_app; split; [exact Hcj|constructor; [exact Hitemc|constructor]]).
     exists (items ++ [(xh, txt)]).
@@ -405,7 +405,12 @@ Section DDoc.
       exists [], c, [], c, le, w. split; [reflexivity|]. split; [apply itx_comment, Hc|]. split; [exact Hw|].
       split; [pose proof (splits_trans _ _ _ _ _ S12 Sw) as S; rewrite <- !app_assoc in S; exact S|].
       split; [apply Hend, Hl|]. split; [exact Hi1|].
-      intros out i0 pend HI. exists out, i0, (pend ++ (c ++ le) ++ w). split; [apply dinv_trivia; assumption|].
+      intros out i0 pend HI. exists out, i0, (pend ++ (c ++ le) ++ w). split.
+      { apply dinv_trivia; try assumption. destruct HI as [_ [Hr | (cp & Hcp)]].
+        - exfalso. destruct S1 as [R1 _]. rewrite Hr in R1. destruct Hc as (uc & -> & _). discriminate.
+        - destruct Hl as [Hn | [-> Hr]].
+          + right. eexists. rewrite ncr_app. apply (cj_pend_comment _ cp c le w Hcp Hc Hn Hw).
+          + left. destruct Sw as [R _]. rewrite Hr in R. destruct w; [|discriminate]. destruct (Hend [] (or_intror (conj eq_refl Hr))) as [[H | H] | (_ & _ & H)]; [discriminate..|exact H]. }
       rewrite !ncr_app, (ncr_comment c Hc), (ncr_ws w Hw). cbn [app].
       assert (El : ncr le = le_out [] le) by (destruct Hl as [[-> | ->] | [-> _]]; reflexivity).
       rewrite El, <- !app_assoc. reflexivity. }
@@ -425,7 +430,11 @@ Section DDoc.
       assert (Hlt : (pos i < pos j1)%N).
       { pose proof (splits_pos _ _ _ Sh) as P1. pose proof (splits_pos _ _ _ Swc) as P2. pose proof (splits_pos _ _ _ Sle) as P3.
         rewrite app_length in P1. assert (0 < length (hdr_open arr)) by (destruct arr; cbn; lia). lia. }
-      eexists _, j1, w. split; [apply (dinv_header arr st i out i0 pend kp jh jt Y wt c st' j1 w i1); try assumption; apply (lend_at_start jt le j1 Hjt Sle Hl)|].
+      eexists _, j1, w. split.
+      { apply (dinv_header arr st i out i0 pend kp jh jt Y wt c st' j1 w i1); try assumption.
+        - apply (lend_at_start jt le j1 Hjt Sle Hl).
+        - destruct Sh as [Rh _]. rewrite Rh. destruct arr; discriminate.
+        - apply (qt_table arr _ _ Htok). }
       rewrite (ncr_ws w Hw).
       assert (El : le_out [if arr then SArrHeader (map k_key kp) else SHeader (map k_key kp)] le = [x0a])
         by (destruct arr; destruct Hl as [[-> | ->] | [-> _]]; reflexivity).
@@ -436,7 +445,10 @@ Section DDoc.
       destruct (isrc_splits s i nl j1 Hi S1) as [Hj1 _]. destruct (isrc_splits s j1 w i1 Hj1 Sw) as [Hi1 _].
       exists [], [], [], [], nl, w. split; [reflexivity|]. split; [apply itx_blank|]. split; [exact Hw|].
       split; [exact (splits_trans _ _ _ _ _ S1 Sw)|]. split; [left; exact Hn|]. split; [exact Hi1|].
-      intros out i0 pend HI. exists out, i0, (pend ++ nl ++ w). split; [apply dinv_trivia; assumption|].
+      intros out i0 pend HI. exists out, i0, (pend ++ nl ++ w). split.
+      { apply dinv_trivia; try assumption. destruct HI as [_ [Hr | (cp & Hcp)]].
+        - exfalso. destruct S1 as [R1 _]. rewrite Hr in R1. destruct Hn as [-> | ->]; discriminate.
+        - right. eexists. rewrite ncr_app. apply (cj_pend_blank _ cp nl w Hcp Hn Hw). }
       rewrite !ncr_app, (ncr_newline nl Hn), (ncr_ws w Hw), (newline_le_out [] nl Hn). cbn [app]. rewrite <- ?app_assoc. reflexivity. }
     (* key = value *)
     apply cut_err_inv in H2. unfold keyval in H2. apply try_map_inv in H2 as (x & H2 & Hst).
@@ -460,7 +472,10 @@ Section DDoc.
       - exists (p0 ++ body), (rest j1). split; [rewrite Es0, Rp', <- !app_assoc; reflexivity|]. rewrite Ep', Ep0, !app_length. cbn [length]. lia.
       - exists (p0 ++ body ++ [x0d]), (rest j1). split; [rewrite Es0, Rp', <- !app_assoc; reflexivity|]. rewrite Ep', Ep0, !app_length. cbn [length]. lia. }
     eexists _, j1, w. split.
-    - apply (dinv_keyval st i out i0 pend path k v st' j0 ja jb jk w0 pre R w1 r (((pre ++ R) ++ w1 ++ [x3d] ++ w2 ++ o) ++ wt ++ c) j1 w i1); try assumption.
+    - destruct (cj_kv_rest w1 w2 t a o wt c Hw1 Hw2 Ht Hwt Hc) as (ct & Hct & Hqct).
+      apply (dinv_keyval st i out i0 pend path k v st' j0 ja jb jk w0 pre R w1 r (((pre ++ R) ++ w1 ++ [x3d] ++ w2 ++ o) ++ wt ++ c) j1 w i1
+               HI Eo Hj0 S0 Hw0 Hw1 Rj HK Erepr Eja Hne Eleaf S1 Hjb Epre ER Hline Hj1 Hlt Hst1 Sw (w1 ++ [x3d] ++ w2 ++ o ++ wt ++ c) ct);
+        [rewrite <- !app_assoc; reflexivity|exact Hct|exact Hqct|exact Hw].
     - rewrite (ncr_ws w Hw).
       assert (El : le_out [SKeyVal (map k_key (path ++ [k])) a] le = [x0a]) by (destruct Hl as [[-> | ->] | [-> _]]; reflexivity).
       rewrite El. rewrite <- !app_assoc. reflexivity.
